@@ -85,10 +85,15 @@ package corerad
 //@ macro hasOpt(opts, tag) = firstIdx(arr(opts), len(opts), tag) >= 0
 //@ macro firstOpt(opts, tag) = opts[firstIdx(arr(opts), len(opts), tag)]
 
+// newProblem: Field and Details are the arguments on every path (the message
+// text is formatting only and is not modelled).
+//@ lib reflect.TypeOf(v) (t)
+//@ iface fmt.Stringer.String(self) (s)
 //@ func newProblem
 //@   requires P1: dyn(want) == dyn(got)
-//@   ensures E1: result.Field == field && result.Details == details
-//@   opt trusted formats a message with reflect/fmt; only Field and Details are modelled
+//@   assigns brk
+//@   opt frame [C12]
+//@   ensures E1 [C12]: result.Field == field && result.Details == details
 
 //@ func (*problems).push
 //@   requires P1: ps != nil && dyn(want) == dyn(got)
